@@ -189,37 +189,67 @@ def compute_regions(m: Machine):
 
 
 def compute_lib_ids(m: Machine):
-    """documented numbering: sources of the table top-down, then targets, then the remaining
-    initial states and explicitly created states."""
-    order = []
+    """State ids as documented, per back-end family.
+    back / back11 (internals.adoc, 'Generated state ids'): Start column top-down; transition-less
+    initial states and explicit_creation states 'are added as a source at the end of the transition
+    table'; then the Next column top-down.
+    backmp11 (comment above generate_state_set_impl): sources, targets, then the initial states and the
+    explicit_creation states not mentioned in the table.
+    The two rules differ only for machines with target-only states declared before implicit ones."""
+    def number(rule):
+        order = []
 
-    def add(n):
-        if n not in order:
-            order.append(n)
+        def add(n):
+            if n not in order:
+                order.append(n)
+        for r in m.rows:
+            add(row_src_state(m, r))
+        if rule == 'back':
+            for n in m.initial:
+                add(n)
+            for n in m.explicit_creation:
+                add(n)
+        for r in m.rows:
+            t = row_tgt_state(m, r)
+            if t is not None:
+                add(t)
+        for n in m.initial:
+            add(n)
+        for n in m.explicit_creation:
+            add(n)
+        return order
+    in_table = set()
     for r in m.rows:
-        add(row_src_state(m, r))
-    for r in m.rows:
-        t = row_tgt_state(m, r)
-        if t is not None:
-            add(t)
-    for n in m.initial:
-        add(n)
+        in_table.add(row_src_state(m, r))
+        if row_tgt_state(m, r) is not None:
+            in_table.add(row_tgt_state(m, r))
     for n in m.explicit_creation:
-        add(n)
+        if n in in_table:
+            raise ValueError(f'{m.name}: explicit_creation state {n} also appears in the table (kept out of the zoo)')
+    m.lib_order = {'back': number('back'), 'mp11': number('mp11')}
     for s in m.states:
-        if s.name not in order:
+        if s.name not in m.lib_order['back']:
             raise ValueError(f'state {s.name} of {m.name} not reachable by the numbering rule; '
                              f'list it in explicit_creation')
-    for i, n in enumerate(order):
-        m.state(n).lib_id = i
-    m.lib_order = order
+    m.lib_ids = {fam: {n: i for i, n in enumerate(o)} for fam, o in m.lib_order.items()}
+    set_family(m, 'back')
+
+
+def set_family(m: Machine, fam: str):
+    for s in m.states:
+        s.lib_id = m.lib_ids[fam][s.name]
 
 
 def variant_for(z: Zoo, cfg: str) -> str:
-    """back11 does not compile a machine-local internal_transition_table (a loud compile error in
-    process_fsm_internal_table, not a semantic question), so it gets the description without them."""
-    if cfg == 'b11' and any(m.irows for m in z.machines()):
-        return 'nomi'
+    """back11 rejects some declarations at compile time (loud errors, not semantic questions):
+    a machine-local internal_transition_table (process_fsm_internal_table passes a const event to a
+    non-const cell) and a row with both action and guard whose event arrives as a const reference
+    (exit point forwarding).  It gets the description without them."""
+    if cfg == 'b11':
+        strip = any(m.irows for m in z.machines())
+        exitrows = any(isinstance(r.src, tuple) and r.a and r.g for m in z.machines() for r in m.rows)
+        if strip or exitrows:
+            return 'b11v'
     return 'full'
 
 
@@ -230,6 +260,21 @@ def make_variant(z: Zoo, variant: str) -> Zoo:
     z2 = copy.deepcopy(z)
     for m in z2.machines():
         m.irows = []
+        for r in m.rows:
+            if isinstance(r.src, tuple) and r.a and r.g:
+                r.a = False
+                r.aid = -1
     z2.finalize()
     z2.variant = variant
+    return z2
+
+
+def for_family(z: Zoo, cfg: str) -> Zoo:
+    """a private copy of the (variant) description whose lib_id fields follow the family of cfg"""
+    import copy
+    z2 = copy.deepcopy(make_variant(z, variant_for(z, cfg)))
+    fam = 'mp11' if cfg in ('m', 'mf', 'mc') else 'back'
+    for m in z2.machines():
+        set_family(m, fam)
+    z2.family = fam
     return z2
